@@ -430,8 +430,10 @@ func ruleNilIface(p *Program, r *Result) {
 					if !isIf {
 						continue
 					}
-					if _, ok := set[f]; !ok {
+					if v, ok := set[f]; !ok {
 						missing = append(missing, f)
+					} else if callResultMayBeNilIface(v, 3) {
+						missing = append(missing, f+" (set from a call that can hand back a nil interface)")
 					}
 				}
 				sort.Strings(missing)
@@ -468,6 +470,68 @@ func mapMayHoldNil(p *Program, m ssa.Value) bool {
 			for _, in := range b.Instrs {
 				if mu, ok := in.(*ssa.MapUpdate); ok && mapFieldOf(mu.Map) == f && check(mu) {
 					return true
+				}
+			}
+		}
+	}
+	return false
+}
+
+// callResultMayBeNilIface: v is the result of a module function that can return, at that position, an interface
+// value the code does not show to be non-nil: the nil constant, or a field of an object other than its own
+// receiver that the function itself created without setting that field. (Parameters and fields of the receiver are
+// the caller's / the published object's responsibility and are checked where those are built.)
+func callResultMayBeNilIface(v ssa.Value, depth int) bool {
+	if depth == 0 {
+		return false
+	}
+	idx := 0
+	var call *ssa.Call
+	switch x := v.(type) {
+	case *ssa.Call:
+		call = x
+	case *ssa.Extract:
+		call, _ = x.Tuple.(*ssa.Call)
+		idx = x.Index
+	}
+	if call == nil {
+		return false
+	}
+	f := call.Common().StaticCallee()
+	if f == nil || f.Pkg == nil || !isModulePath(f.Pkg.Pkg.Path()) || len(f.Blocks) == 0 {
+		return false
+	}
+	for _, b := range f.Blocks {
+		ret, ok := b.Instrs[len(b.Instrs)-1].(*ssa.Return)
+		if !ok || b == f.Recover || idx >= len(ret.Results) {
+			continue
+		}
+		for _, rv := range returnedValues(f, ret, idx) {
+			if isNilConst(rv) {
+				return true
+			}
+			if callResultMayBeNilIface(rv, depth-1) {
+				return true
+			}
+			if fld, base, ok := loadedField(rv); ok {
+				// a field of an object this function made itself: is the field set in the literal?
+				for i := 0; i < 3; i++ {
+					if u, ok := base.(*ssa.UnOp); ok && u.Op == token.MUL {
+						base = u.X
+					}
+				}
+				if al, ok := base.(*ssa.Alloc); ok && al.Parent() == f {
+					if _, set := literalFields(al)[fld.Name()]; !set {
+						isSpill := false
+						for _, st := range allocStores(al) {
+							if _, isParam := st.Val.(*ssa.Parameter); isParam {
+								isSpill = true
+							}
+						}
+						if !isSpill {
+							return true
+						}
+					}
 				}
 			}
 		}
